@@ -11,7 +11,7 @@ from ..drive import Forwarder
 ID = 'C17'
 LEVEL = 'exploration'
 TECHNIQUE = 'bounded-exhaustive enumeration of metric definitions (type x spelling x expression x labels x namespace x help/unit) x processors x install route on the real handler, against a reference computed from the definitions and the recorded frame'
-RULE = ('single definitions: full product of type{4} x spelling{lower,UPPER} x expression{none,int,float,bool,non-numeric,failing} x '
+RULE = ('single definitions: full product of type{4} x spelling{lower,UPPER} x expression{none,int,float,bool,non-numeric,failing,zero,False,negative} x '
         'labels{none,static,expression,both} x namespace{none,ns} x help/unit{none,text} x processors{1,2} x route{protobuf,MetricDefinition}; '
         'pairs: all ordered pairs over (type, expression); zero processors then one added later; two hits, fire_count=1; '
         'non-trivial = expression or label expression present, or >1 processor/definition')
@@ -27,7 +27,7 @@ def target(n, obj, times):
 '''
 LINE = PROGRAM.split('\n').index('        mark = 1') + 1
 TYPES = ['counter', 'gauge', 'histogram', 'summary']
-EXPRS = [None, 'n', 'n / 2', 'True', 'obj', '1/0']
+EXPRS = [None, 'n', 'n / 2', 'True', 'obj', '1/0', 'n - 5', 'False', '-n']
 LABELS = ['none', 'static', 'expr', 'both']
 
 
@@ -38,11 +38,11 @@ def bounds(tier):
 def cases(tier, seed):
     out = []
     singles = []
-    for t, up, e, lb, ns, hu in itertools.product(range(4), (0, 1), range(6), range(4), (0, 1), (0, 1)):
+    for t, up, e, lb, ns, hu in itertools.product(range(4), (0, 1), range(len(EXPRS)), range(4), (0, 1), (0, 1)):
         for procs in (1, 2):
             for route in ('pb', 'api'):
                 singles.append({'defs': [[t, up, e, lb, ns, hu]], 'procs': procs, 'route': route})
-    for (t1, e1), (t2, e2) in itertools.product(itertools.product(range(4), range(6)), repeat=2):
+    for (t1, e1), (t2, e2) in itertools.product(itertools.product(range(4), range(len(EXPRS))), repeat=2):
         singles.append({'defs': [[t1, 0, e1, 0, 0, 0], [t2, 1, e2, 2, 1, 1]], 'procs': 1, 'route': 'pb' if (t1 + e2) % 2 else 'api'})
     out = [{'k': 'chunk', 'items': singles[i:i + 50]} for i in range(0, len(singles), 50)]
     for t in range(4):
@@ -115,6 +115,10 @@ def expected(defs, procs, n_val, obj):
             value = n_val / 2
         elif expr == 'True':
             value = 1.0
+        elif expr in ('n - 5', 'False'):
+            value = 0.0        # zero is a number, not 'no value'
+        elif expr == '-n':
+            value = -float(n_val)
         labels = {}
         if LABELS[lb] in ('static', 'both'):
             labels['ls'] = 'sv'
